@@ -42,7 +42,7 @@ EXTRA_SYMBOLS = [
 
 CONFIG_SOURCES = ["direct/config/defaults.py", "direct/data/datasets_config.py", "direct/common/subsample_config.py"]
 NAMED_MODULES = ["direct.data.datasets_config", "direct.data.datasets", "direct.common.subsample", "direct.data.transforms",
-                 "direct.common.subsample_config", "direct.config.defaults"]
+                 "direct.common.subsample_config", "direct.config.defaults", "direct.functionals"]
 
 
 def cps(s: str) -> str:
@@ -90,6 +90,16 @@ class Info:
         self.mask_required: list[str] = []
         self.mask_params: list[str] = []
         self.model_inits: dict[tuple[str, str], tuple[list[str], list[str], bool]] = {}
+        self.registered_models: list[tuple[str, bool]] = []          # (model_name, takes forward_operator)
+        self.registered_engines: list[tuple[str, str]] = []          # (defining module, class)
+        self.registered_datasets: list[str] = []                     # names accepted by build_dataset
+        self.dataset_bases: list[str] = []                           # dataset classes that only serve as bases
+        self.registered_masks: list[str] = []
+        self.transforms_types: list[str] = []
+        self.referenced_functionals: list[str] = []                  # metric / regularizer names in the shipped files
+        self.referenced_losses: list[str] = []
+        self.permissible_losses: list[str] = []
+        self.scanned_sources: list[str] = []
         self.instance_defaults: list[str] = []
         self.undecorated: list[str] = []
         self.unsupported_types: list[str] = []
@@ -181,7 +191,12 @@ def field_default(f: dataclasses.Field):
 def scan_config_sources(info: Info):
     """AST facts: dataclass-instance / mutable literals used as class-level defaults (ValueError on Python >= 3.11),
     config classes that are not decorated with @dataclass."""
-    files = [REPO / p for p in CONFIG_SOURCES] + sorted((REPO / "direct" / "nn").glob("*/config.py"))
+    files = {REPO / p for p in CONFIG_SOURCES}
+    files.update((REPO / "direct").rglob("config.py"))
+    files.update((REPO / "direct").rglob("*_config.py"))
+    files.update((REPO / "direct" / "config").glob("*.py"))
+    files = sorted(f for f in files if f.exists())
+    info.scanned_sources = [str(f.relative_to(REPO)) for f in files]
     for p in files:
         try:
             tree = ast.parse(p.read_text())
@@ -209,6 +224,11 @@ def scan_config_sources(info: Info):
                     callee = ast.unparse(v.func)
                     if callee.split(".")[-1] != "field" and callee.split(".")[-1][:1].isupper():
                         bad = True      # SomeConfig() evaluated at class-creation time
+                    if callee.split(".")[-1] == "field":
+                        for kw in v.keywords:
+                            if kw.arg == "default" and (isinstance(kw.value, (ast.List, ast.Dict, ast.Set)) or (
+                                    isinstance(kw.value, ast.Call) and ast.unparse(kw.value.func).split(".")[-1][:1].isupper())):
+                                bad = True
                 if bad:
                     info.instance_defaults.append(f"{rel}:{node.name}.{ast.unparse(st.target)}")
 
@@ -314,11 +334,76 @@ def introspect(force: bool = False) -> Info:
                 req = [p.name for p in list(sig.parameters.values())[1:]
                        if p.kind not in (p.VAR_KEYWORD, p.VAR_POSITIONAL) and p.default is inspect.Parameter.empty]
                 info.model_inits[(m, n)] = (ps, req, any(p.kind == p.VAR_KEYWORD for p in sig.parameters.values()))
+                info.registered_models.append((name[len("direct.nn."):] + "." + cls_name, "forward_operator" in ps))
                 info.strings.update(ps)
+    _try(info, "registry of engines / datasets / masking functions / functionals", lambda: _registry(info, mods))
     info.symbols = sorted(info.strings)
     info.sym = {s: i for i, s in enumerate(info.symbols)}
     _INFO = info
     return info
+
+
+def _registry(info: Info, mods: dict):
+    """every registered name the configuration layer can be asked for (beyond the names the shipped files use)"""
+    info.registered_models.sort()
+    base = getattr(mods.get("direct.nn.mri_models"), "MRIModelEngine", None)
+    for name, mod in sorted(mods.items()):
+        if base is None or not name.startswith("direct.nn.") or name.endswith(".mri_models"):
+            continue
+        for n, o in sorted(vars(mod).items()):
+            if inspect.isclass(o) and issubclass(o, base) and o.__module__ == name and not inspect.isabstract(o):
+                info.registered_engines.append((name, n))
+    ds = mods.get("direct.data.datasets")
+    if ds is not None:
+        classes = {n: o for n, o in vars(ds).items() if inspect.isclass(o) and n.endswith("Dataset") and o.__module__ == ds.__name__}
+        for n, o in sorted(classes.items()):
+            params = inspect.signature(o.__init__).parameters
+            if "transform" not in params and not any(p.kind == p.VAR_KEYWORD for p in params.values()):
+                continue                      # not constructible by build_dataset(transform=…) (ConcatDataset)
+            if any(o is not c and issubclass(c, o) for c in classes.values()):
+                info.dataset_bases.append(n[:-len("Dataset")])
+                continue
+            info.registered_datasets.append(n[:-len("Dataset")])
+    sub = mods.get("direct.common.subsample")
+    if sub is not None:
+        for n, o in sorted(vars(sub).items()):
+            if inspect.isclass(o) and n.endswith("MaskFunc") and o.__module__ == sub.__name__ and not inspect.isabstract(o) \
+                    and not n.startswith("Base"):
+                info.registered_masks.append(n[:-len("MaskFunc")])
+    tt = info.enums.get("TransformsType")
+    if tt is not None:
+        info.transforms_types = list(tt.__members__)
+    fns, losses = set(), set()
+    for _, tree in info.configs:
+        for sec in ("training", "validation"):
+            sct = tree.get(sec) or {}
+            if not isinstance(sct, dict):
+                continue
+            for key in ("metrics", "regularizers"):
+                for x in sct.get(key) or []:
+                    if isinstance(x, str):
+                        fns.add(x)
+        for l in ((tree.get("training") or {}).get("loss") or {}).get("losses") or []:
+            if isinstance(l, dict) and isinstance(l.get("function"), str):
+                losses.add(l["function"])
+    info.referenced_functionals = sorted(fns)
+    info.referenced_losses = sorted(losses)
+    # losses `MRIModelEngine.build_loss` knows: the LossFunType members its if-chain mentions
+    lft = getattr(mods.get("direct.nn.types"), "LossFunType", None)
+    tree = ast.parse((REPO / "direct/nn/mri_models.py").read_text())
+    for node in ast.walk(tree):
+        if isinstance(node, ast.FunctionDef) and node.name == "build_loss":
+            for a in ast.walk(node):
+                if isinstance(a, ast.Attribute) and isinstance(a.value, ast.Name) and a.value.id == "LossFunType" and lft is not None \
+                        and a.attr in lft.__members__:
+                    v = str(lft[a.attr].value)
+                    if v not in info.permissible_losses:
+                        info.permissible_losses.append(v)
+    for group in (info.registered_datasets, info.dataset_bases, info.registered_masks, info.transforms_types,
+                  info.referenced_functionals, info.referenced_losses, info.permissible_losses,
+                  [n for n, _ in info.registered_models]):
+        info.strings.update(group)
+    info.strings.add("transforms_type")
 
 
 def _walk_types(t):
@@ -520,6 +605,21 @@ def emit(info: Info) -> tuple[str, dict]:
     out.append("def parseFailures : List Str := [" + ", ".join(cps(w) for w, _ in I.parse_failures) + "]")
     out.append("/-- field types the schema language cannot express (treated as `Any`) -/")
     out.append("def unsupportedTypes : List Str := [" + ", ".join(cps(w) for w in I.unsupported_types) + "]\n")
+
+    out.append("/-! registered names (beyond what the shipped files mention) -/")
+    out.append("def registeredModels : List (Sym × Bool) := [" + ", ".join(
+        f"({I.S(n)}, {'true' if mri else 'false'})" for n, mri in I.registered_models) + "]")
+    out.append(chunked("registeredEngines", "List (PStr × PStr)", [f"({packed(m)}, {packed(n)})" for m, n in I.registered_engines], 12))
+    out.append(f"def registeredDatasets : List Sym := {[I.S(n) for n in I.registered_datasets]}")
+    out.append(f"def datasetBaseClasses : List Sym := {[I.S(n) for n in I.dataset_bases]}")
+    out.append(f"def registeredMaskFuncs : List Sym := {[I.S(n) for n in I.registered_masks]}")
+    out.append(f"def transformsTypes : List Sym := {[I.S(n) for n in I.transforms_types]}")
+    out.append(f"def referencedFunctionals : List Sym := {[I.S(n) for n in I.referenced_functionals]}")
+    out.append(f"def referencedLosses : List Sym := {[I.S(n) for n in I.referenced_losses]}")
+    out.append(f"def permissibleLosses : List Sym := {[I.S(n) for n in I.permissible_losses]}")
+    out.append(f"def kTransformsType : Sym := {I.S('transforms_type')}")
+    out.append("/-- source files covered by the scan for instance / mutable defaults and undecorated config classes -/")
+    out.append("def scannedSources : List Str := [" + ", ".join(cps(x) for x in I.scanned_sources) + "]\n")
 
     def ty_or_any(mod, name):
         c = I.schema_classes.get((mod, name))
